@@ -952,6 +952,12 @@ def judge_scram(J, cases, results):
                             "from OpenSSL's Argon2id) rejects it. autobahn's derive_scram_credential makes the same substitution, so "
                             "autobahn/Crossbar.io agree with each other but not with an independent implementation", c,
                             {"proof": proof_text, "salted_password_used": sp_impl.decode(), "raw_tag": indep_raw.hex()})
+            for name, o in r.get("welcome_no_challenge", []):
+                res.count("scram:welcome-without-challenge:" + o.split(" ")[0])
+                if o == "accept":
+                    J.violation("scram-welcome-accepted-without-challenge",
+                                f"a fresh AuthScram accepted WELCOME signature {name} although no CHALLENGE was ever processed: "
+                                "the router proved nothing (mutual authentication)", c, name)
             # on_welcome, every alleged signature: the code's outcome must be the Spec's, and accept only the signature
             for (name, text_hex, outcome, logcalls), a in zip(wl, ans[5:5 + len(wl)]):
                 spec = a.replace("raised Error", "raised Error")
